@@ -41,19 +41,28 @@ fn main() {
         return;
     }
 
-    let mut fixed: Vec<IfaceSpec> = vec![genr::mini(), genr::pzoo()];
+    // crates the driver found the macro under test to reject: left out of the table
+    let exclude: Vec<String> = get("--exclude", "").split(',').filter(|x| !x.is_empty()).map(|x| x.to_string()).collect();
+    let mut qdevs: Vec<IfaceSpec> = Vec::new();
     for q in [1usize, 2, 3, 4, 10] {
-        fixed.push(genr::qdev(q));
+        qdevs.push(genr::qdev(q));
     }
-    for f in &fixed {
-        let strs: Vec<&str> = f.decls.iter().map(|x| x.cmd.as_str()).collect();
-        let m = mon::spec::Model::new(&strs, f.std_cmds, f.err_cmds);
-        assert!(m.collision().is_none(), "fixed interface {} collides: {:?}", f.name, m.collision());
-        assert!(f.decls.iter().all(|x| !genr::self_collides(&x.cmd)));
+    // one crate per fixed interface family, so that a macro that rejects one does not take
+    // the others with it
+    let fixed_crates: Vec<(&str, Vec<IfaceSpec>)> = vec![("gfix_mini", vec![genr::mini()]), ("gfix_pzoo", vec![genr::pzoo()]), ("gfix_qdev", qdevs)];
+    let mut names: Vec<String> = Vec::new();
+    for (cname, specs) in &fixed_crates {
+        for f in specs {
+            let strs: Vec<&str> = f.decls.iter().map(|x| x.cmd.as_str()).collect();
+            let m = mon::spec::Model::new(&strs, f.std_cmds, f.err_cmds);
+            assert!(m.collision().is_none(), "fixed interface {} collides: {:?}", f.name, m.collision());
+            assert!(f.decls.iter().all(|x| !genr::self_collides(&x.cmd)));
+        }
+        genr::emit_crate(&out.join(cname), cname, &mon_path, &repo, specs, false).expect("emit fixed crate");
+        names.push(cname.to_string());
     }
-    genr::emit_crate(&out.join("gfix"), "gfix", &mon_path, &repo, &fixed, false).expect("emit gfix");
+    let _ = std::fs::remove_dir_all(out.join("gfix"));
 
-    let mut names = vec!["gfix".to_string()];
     for c in 0..crates {
         let mut specs = Vec::new();
         for k in 0..per {
@@ -75,7 +84,7 @@ fn main() {
     let mut toml = String::from("[package]\nname = \"gall\"\nversion = \"0.0.0\"\nedition = \"2021\"\n\n[features]\nstd = [\"mon/std\"]\n\n[dependencies]\n");
     toml.push_str(&format!("mon = {{ path = \"{}\" }}\n", mon_path));
     let mut lib = String::from("// generated\npub fn ifaces() -> Vec<&'static mon::drive::IfaceDesc> {\n    let mut v = Vec::new();\n");
-    for n in &names {
+    for n in names.iter().filter(|n| !exclude.contains(n)) {
         toml.push_str(&format!("{} = {{ path = \"../{}\" }}\n", n, n));
         lib.push_str(&format!("    v.extend_from_slice({}::IFACES);\n", n));
     }
@@ -86,9 +95,9 @@ fn main() {
     for e in std::fs::read_dir(&out).unwrap() {
         let e = e.unwrap();
         let n = e.file_name().to_string_lossy().to_string();
-        if n.starts_with("grand") && !names.contains(&n) {
+        if (n.starts_with("grand") || n.starts_with("gfix")) && !names.contains(&n) {
             let _ = std::fs::remove_dir_all(e.path());
         }
     }
-    println!("generated {} crates, {} random interfaces per crate, seed {}", names.len(), per, seed);
+    println!("generated {} crates, {} random interfaces per crate, seed {}, excluded {:?}", names.len(), per, seed, exclude);
 }
